@@ -3,6 +3,11 @@
 
 use crate::rng::Rng;
 
+thread_local! {
+    /// Set by engines that want position-hostile texts (C08).
+    pub static UNICODE_HEAVY: std::cell::Cell<bool> = const { std::cell::Cell::new(false) };
+}
+
 /// Sentences that Harper flags (spelling, a/an, repetition, then/than, number
 /// suffixes, spacing, capitalisation, phrase corrections, ...).
 pub const BAD: &[&str] = &[
@@ -58,7 +63,18 @@ pub const WORDS: &[&str] = &[
     "日本語x", "émigréx", "ﬁancéx", "Ωmega", "don'tx", "hello%world", "a", "Teh",
 ];
 
+/// More hostile to position arithmetic: astral and combining characters before lints.
+pub fn sentence_unicode(rng: &mut Rng) -> String {
+    let pre = *rng.pick(&["𝒜", "😀 ", "e\u{301}", "👩‍👩‍👧‍👦 ", "\t", "𐍈𐍈 ", "naïve ", ""]);
+    let body = *rng.pick(BAD);
+    let post = *rng.pick(&["", " 😀", " 𝒜𝒜", "\t"]);
+    format!("{pre}{body}{post}")
+}
+
 pub fn sentence(rng: &mut Rng) -> String {
+    if UNICODE_HEAVY.with(|u| u.get()) && rng.chance(1, 2) {
+        return sentence_unicode(rng);
+    }
     match rng.below(10) {
         0..=4 => rng.pick(BAD).to_string(),
         5..=7 => rng.pick(GOOD).to_string(),
